@@ -17,12 +17,15 @@ from pathlib import Path
 from ..common import Run, EMBS, E0, E1, E2, Emb, close, repo_import, seed
 from ..tlc import run_tlc, write_cfg
 
-BASE = dict(StalePinch=False, SkipBetween=False, ExitOffByOne=False, DoEmit=True)
+BASE = dict(StalePinch=False, SkipBetween=False, ExitOffByOne=False, DoEmit=True, MinPeaks=0)
 CFG = {
     "quick": dict(MinRows=2, MaxRows=6, HMax=3),
     "deep": dict(MinRows=7, MaxRows=7, HMax=4),
     "deep8": dict(MinRows=8, MaxRows=8, HMax=3),
     "tiny": dict(MinRows=2, MaxRows=5, HMax=3),
+    # many pockets on one side of the pinch (three need seven rows): used by C03's shape leg as well (seeded change C03g)
+    "many7": dict(MinRows=7, MaxRows=7, HMax=4, MinPeaks=3),
+    "many8": dict(MinRows=8, MaxRows=9, HMax=4, MinPeaks=3),
 }
 INVS = ["C07_Minorant", "C07_GCCUnchanged", "C07_Ends", "C07_Profiles", "C07_RowsDescending", "EmitCase"]
 
